@@ -103,6 +103,17 @@ func addSQLFeatures(g *gen) {
 				g.c.AddFeat("sql:guard")
 			}
 		}
+		// a guard whose value is a string literal holding words: the name of a table struct of the
+		// file, a name that contains one
+		if g.chance(0.15) {
+			word := pick(g.rng, []string{s.Name, "S0", "My" + s.Name, s.Name + " item", "x"})
+			gf := Field{Name: "kind" + fmt.Sprint(i), T: Basic("string"), Tag: fmt.Sprintf(`gomacro-sql-guard:"'%s'"`, word)}
+			pos := g.rng.Intn(len(s.Fields) + 1)
+			fs := append([]Field{}, s.Fields[:pos]...)
+			fs = append(fs, gf)
+			s.Fields = append(fs, s.Fields[pos:]...)
+			g.c.AddFeat("sql:guard-literal")
+		}
 		// comment directives
 		var cols []string
 		for _, f := range s.Fields {
